@@ -130,6 +130,9 @@ func (g *Gen) Make(kind string, kids, hidden []*Node) *Node {
 		panic("gen.Make: unknown kind " + kind)
 	}
 	n := &Node{Kind: kind, Kids: kids, Hidden: hidden}
+	if kind == "markempty" {
+		n.Hidden = []*Node{{Kind: "emptynew"}}
+	}
 	for i := 0; i < sp.NS; i++ {
 		n.S = append(n.S, g.Str(g))
 	}
@@ -201,19 +204,26 @@ func (g *Gen) Tree(depth int) *Node {
 // NonLeafKinds in fixed order, for the pairwise sweep.
 func NonLeafKinds() []string {
 	var out []string
-	out = append(out, WrapKinds...)
-	out = append(out, BarrierKinds...)
-	out = append(out, WrapHiddenKinds...)
-	out = append(out, MultiKinds...)
+	for _, l := range [][]string{WrapKinds, BarrierKinds, WrapHiddenKinds, MultiKinds} {
+		for _, k := range l {
+			if Specs[k].W > 0 { // weight 0: only ever placed explicitly
+				out = append(out, k)
+			}
+		}
+	}
 	return out
 }
 
 // OuterKinds can have a visible kid.
 func OuterKinds() []string {
 	var out []string
-	out = append(out, WrapKinds...)
-	out = append(out, WrapHiddenKinds...)
-	out = append(out, MultiKinds...)
+	for _, l := range [][]string{WrapKinds, WrapHiddenKinds, MultiKinds} {
+		for _, k := range l {
+			if Specs[k].W > 0 {
+				out = append(out, k)
+			}
+		}
+	}
 	return out
 }
 
